@@ -37,6 +37,9 @@ CMD_TEMPLATES = [
     "prog \\\\ end\\ {n}",
     "prog !bang %pct ^caret @at +plus {n}",
     "prog\nnewline {n}",
+    "prog \"two  spaces   kept\" {n}",
+    "prog 'tab\there' \"nl\nhere\" {n}",
+    "prog --msg=' lead and trail ' {n}",
 ]
 
 
@@ -242,6 +245,13 @@ def gen_scenario(ch, prof):
             params["hpc_config"] = {"hpc_type": "local", "hpc": {}}
         groups.append({"name": f"g{gi}" if ngroups > 1 or g.flip(0.5) else "default", "params": params,
                        "wall_min": wall_min})
+    if any(gr["params"]["resource_monitor_type"] != "none" for gr in groups):
+        # which statistics are collected (group parameter); per-process statistics exercise the
+        # separate per-job summaries of the aggregator
+        rms = {"cpu": g.flip(0.8), "memory": g.flip(0.8), "disk": False, "network": False, "process": g.flip(0.6)}
+        for gr in groups:
+            gr["params"]["resource_monitor_stats"] = dict(rms)
+        sc["stat_patterns"] = ["increasing", "decreasing", "constant", "zero", "random", "spiky", "spiky"]
     sc["groups"] = groups
     # group-wide: all groups must share generate_reports etc? only max_nodes/poll_interval must match.
     jobs = []
